@@ -58,6 +58,7 @@ Record m1_case := mkCase {
   k_fill : fill_outcome;
   k_validate : list (result unit validate_error);   (* validate_migration_plan of each history plan, then of the filled new plan *)
   k_prefixed : list action;                          (* new plan .with_prefix("app_") *)
+  k_validate_raw : result unit validate_error;       (* validate_migration_plan of the new plan BEFORE any fill value is supplied *)
 }.
 
 Definition model_plan (c : m1_case) : result (N * list action) ek :=
@@ -91,7 +92,8 @@ Definition check_case (c : m1_case) : list nat :=
           (map validate_migration_plan (k_history c)
            ++ [validate_migration_plan (mkPlan "" None None 0 filled)]) (k_validate c) then [] else [8%nat])
   ++ (if dec_b (list_eq_dec action_eq_dec) (map (action_with_prefix "app_") (p_actions np)) (k_prefixed c)
-      then [] else [9%nat]).
+      then [] else [9%nat])
+  ++ (if res_eqb unit_eq_dec validate_error_eq_dec (validate_migration_plan np) (k_validate_raw c) then [] else [10%nat]).
 
 Fixpoint mismatches_from (i : nat) (cs : list m1_case) : list (nat * list nat) :=
   match cs with
